@@ -364,6 +364,34 @@ pub open spec fn exec_post(o: Terminal, f: Terminal, fun: Function) -> bool {
     }
 }
 
+/// [C05,C16,C17] what one DECSET mode does (CSI ? Pm h), in terms of the helper postconditions
+#[verifier::opaque]
+pub open spec fn decset_one(o: Terminal, f: Terminal, m: DecMode) -> bool {
+    match m {
+        DecMode::CursorKeys => f == (Terminal { cursor_keys_mode: CursorKeysMode::Application, ..o }),
+        DecMode::Origin => post_move_cursor_home(Terminal { origin_mode: true, ..o }, f),
+        DecMode::AutoWrap => f == (Terminal { auto_wrap_mode: true, ..o }),
+        DecMode::TextCursorEnable => f == (Terminal { cursor: Cursor { visible: true, ..o.cursor }, ..o }),
+        DecMode::AltScreenBuffer => exists|a: Terminal| #[trigger] post_switch_to_alternate_buffer(o, a) && post_reflow(a, f),
+        DecMode::SaveCursor => post_save_cursor(o, f),
+        DecMode::SaveCursorAltScreenBuffer => exists|a: Terminal, b: Terminal| #[trigger] post_save_cursor(o, a) && #[trigger] post_switch_to_alternate_buffer(a, b) && post_reflow(b, f),
+    }
+}
+
+/// [C05,C16,C17] what one DECRST mode does (CSI ? Pm l)
+#[verifier::opaque]
+pub open spec fn decrst_one(o: Terminal, f: Terminal, m: DecMode) -> bool {
+    match m {
+        DecMode::CursorKeys => f == (Terminal { cursor_keys_mode: CursorKeysMode::Normal, ..o }),
+        DecMode::Origin => post_move_cursor_home(Terminal { origin_mode: false, ..o }, f),
+        DecMode::AutoWrap => f == (Terminal { auto_wrap_mode: false, ..o }),
+        DecMode::TextCursorEnable => f == (Terminal { cursor: Cursor { visible: false, ..o.cursor }, ..o }),
+        DecMode::AltScreenBuffer => exists|a: Terminal| #[trigger] post_switch_to_primary_buffer(o, a) && post_reflow(a, f),
+        DecMode::SaveCursor => post_restore_cursor(o, f),
+        DecMode::SaveCursorAltScreenBuffer => exists|a: Terminal, b: Terminal| #[trigger] post_switch_to_primary_buffer(o, a) && #[trigger] post_restore_cursor(a, b) && post_reflow(b, f),
+    }
+}
+
 // GENERATED-FRAMES-BEGIN (gen_frames.py)
 impl Terminal {
     /// frame: every group except {buffer, dirty} is exactly what it was in `o`
